@@ -21,6 +21,8 @@ NOTE = "Decides the sign/convention layer and guards; the division algorithms un
 def run(res, programs, tier):
     intalg.r_sign_tables(res, programs, "R02.3", intalg.DIV_OPS)
     intalg.r01_2(res, programs, "R02.2", "div")
+    from . import c19
+    c19.shared_r19_2(res, programs)
     res.rule("R02.1", "UBig/IBig::is_multiple_of(d) is `self % d` followed by is_zero (shape of the body)")
     res.rule("R02.4", "division by a prepared ConstDivisor: the long-division kernel is entered whenever the dividend has at least as many words as the divisor (no strict length guard: an equal-length dividend can still exceed the divisor)")
     res.rule("R16.1c", "(shared with C16) every integer division entry passes a zero-divisor test with a diverging edge")
